@@ -264,7 +264,7 @@ CHECKS = {
     "C15": dict(
         text="PARTIAL. model/Sender.v = printcore's stop-and-wait sender x Marlin-style firmware x FIFO channels; runs = all "
              "interleavings of print thread, firmware and read thread, with an arbitrary good/corrupted flag on every transmission. "
-             "Proved: C15_safety (accepted log always a contiguous in-order duplicate-free slice of the job's commands, a prefix when the "
+             "Proved: C15_safety and C15_safety_racy (the latter with clear/resendfrom overwritten arbitrarily at any moment: all races on the unlocked shared variables) (accepted log always a contiguous in-order duplicate-free slice of the job's commands, a prefix when the "
              "reset got through), C15_numbering (line numbers = commands sent, stored lines and good frames carry (k, command k)), "
              "C15_resend (a resend request restarts transmission at the requested stored line), C15_window (wire + replies + clear flag <= 1 + rejections), C15_complete_unless_late_resend (reset through, ANY "
              "corruption pattern and interleaving: at quiescence the whole job is accepted unless a Resend was read after the print thread "
